@@ -824,14 +824,146 @@ fn check_burst(b: &Burst, info: &mut Info) -> Result<(), String> {
     Ok(())
 }
 
+// ---- long histories on one thread ------------------------------------------------------------------
+//
+// N DISTINCT arguments go through one operation on one thread (a long-lived worker); the first K and a sample of
+// the others are then evaluated again: the bits must be those of the first evaluation. A bounded cache, memo
+// table or pool that misbehaves once it is full / flushed / wrapped needs exactly this; N exceeds the
+// power-of-two capacities up to 2048 in the quick tier and up to 65536 (cheap operations) in the thorough tier.
+
+const LONG_KINDS: [&str; 8] = ["pairing:distinct-G2", "pairing:distinct-G1", "decode:G1-compressed", "decode:G2-compressed", "in_subgroup:G2", "hash_to_curve:G1", "wnaf-mul:distinct-bases", "prepare+miller:distinct-G2"];
+
+fn long_eval(kind: usize, i: usize, p1: &[crt::G1Affine], p2: &[crt::G2Affine]) -> Result<Vec<u8>, String> {
+    let mut out = vec![];
+    let a1 = p1[i % p1.len()];
+    let a2 = p2[i % p2.len()];
+    match kind {
+        0 => put_fq12(&mut out, &cr("pairing", || Bls12::pairing(p1[0], a2))?),
+        1 => put_fq12(&mut out, &cr("pairing", || Bls12::pairing(a1, p2[0]))?),
+        2 => {
+            let b = cr("into_compressed", || a1.into_compressed())?;
+            let r = G1m::decode_bytes(true, b.as_ref(), true)?.map_err(|e| format!("decoding a subgroup point failed: {:?}", e))?;
+            G1m::put_aff(&mut out, &r);
+        }
+        3 => {
+            let b = cr("into_compressed", || a2.into_compressed())?;
+            let r = G2m::decode_bytes(true, b.as_ref(), true)?.map_err(|e| format!("decoding a subgroup point failed: {:?}", e))?;
+            G2m::put_aff(&mut out, &r);
+        }
+        4 => out.push(cr("in_subgroup", || G2m::op_in_subgroup(&a2))? as u8),
+        5 => {
+            let m = (i as u64).to_le_bytes();
+            G1m::put_proj(&mut out, &cr("hash", || G1m::hash(refmodel::h2c::Expander::XmdSha256, true, &m, b"LONG-HISTORY"))?);
+        }
+        6 => {
+            let k = rp(&Z::from(0x1234_5678_9abc_def1u64 + i as u64));
+            G1m::put_proj(&mut out, &cr("wnaf", || Wnaf::new().scalar(k).base(a1.into_projective()))?);
+        }
+        _ => {
+            let f = cr("miller_loop", || Bls12::miller_loop([(&p1[0].prepare(), &a2.prepare())].iter()))?;
+            put_fq12(&mut out, &f);
+        }
+    }
+    Ok(out)
+}
+
+fn long_case(kind: usize, n: usize, seed: u64) -> Result<(), String> {
+    // distinct arguments: X_i = X_0 + i * generator, built incrementally by the crate and normalized in one batch
+    let need1 = if matches!(kind, 1 | 2 | 6) { n } else { 1 };
+    let need2 = if matches!(kind, 0 | 3 | 4 | 7) { n } else { 1 };
+    let s1 = proj_c::<G1m>(&G1m::pool().sub[seed as usize % POOL_SUB].1);
+    let s2 = proj_c::<G2m>(&G2m::pool().sub[(seed / 7) as usize % POOL_SUB].1);
+    let g1 = aff_c::<G1m>(&G1m::gen());
+    let g2 = aff_c::<G2m>(&G2m::gen());
+    let mut v1 = Vec::with_capacity(need1);
+    let mut t = s1;
+    for _ in 0..need1 {
+        v1.push(t);
+        t.add_assign_mixed(&g1);
+    }
+    crt::G1::batch_normalization(&mut v1);
+    let p1: Vec<crt::G1Affine> = v1.iter().map(|p| p.into_affine()).collect();
+    let mut v2 = Vec::with_capacity(need2);
+    let mut t = s2;
+    for _ in 0..need2 {
+        v2.push(t);
+        t.add_assign_mixed(&g2);
+    }
+    crt::G2::batch_normalization(&mut v2);
+    let p2: Vec<crt::G2Affine> = v2.iter().map(|p| p.into_affine()).collect();
+    // one worker thread does everything
+    let res: Result<(), String> = std::thread::scope(|sc| {
+        sc.spawn(|| {
+            let keep = 24usize;
+            let stride = std::cmp::max(1, n / 40);
+            let mut first: std::collections::BTreeMap<usize, Vec<u8>> = Default::default();
+            for i in 0..n {
+                let r = long_eval(kind, i, &p1, &p2)?;
+                if i < keep || i % stride == 0 || i + keep >= n {
+                    first.insert(i, r);
+                }
+            }
+            for (i, want) in &first {
+                let again = long_eval(kind, *i, &p1, &p2)?;
+                if again != *want {
+                    return Err(format!("{}: argument #{} evaluated again after {} distinct arguments had gone through the same thread returns different bits than its first evaluation", LONG_KINDS[kind], i, n));
+                }
+            }
+            // and once more in reverse order (what a flush / wrap-around left behind)
+            for (i, want) in first.iter().rev().take(keep) {
+                let again = long_eval(kind, *i, &p1, &p2)?;
+                if again != *want {
+                    return Err(format!("{}: argument #{} evaluated a third time (reverse order) after {} distinct arguments returns different bits", LONG_KINDS[kind], i, n));
+                }
+            }
+            Ok(())
+        })
+        .join()
+        .map_err(|_| "harness: worker thread panicked".to_string())?
+    });
+    res
+}
+
+fn long_n(tier: crate::engine::Tier, kind: usize) -> usize {
+    let expensive = matches!(kind, 0 | 1 | 7);
+    match (tier, expensive) {
+        (crate::engine::Tier::Quick, true) => 2_300,
+        (crate::engine::Tier::Quick, false) => 4_400,
+        (_, true) => 9_000,
+        (_, false) => 70_000,
+    }
+}
+
+fn run_long(ctx: &crate::engine::Ctx, rec: &mut dyn FnMut(serde_json::Value, Info)) -> Result<(), (String, serde_json::Value)> {
+    let _ = (G1m::pool(), G2m::pool());
+    let kinds: Vec<usize> = (0..LONG_KINDS.len()).collect();
+    let seed = ctx.seed;
+    let tier = ctx.tier;
+    let res = crate::engine::par_map(ctx.threads, kinds.len(), |i| long_case(kinds[i], long_n(tier, kinds[i]), seed));
+    for (i, r) in res.into_iter().enumerate() {
+        let case = serde_json::json!({"kind": kinds[i], "n": long_n(tier, kinds[i]), "seed": seed});
+        r.map_err(|m| (m, case.clone()))?;
+        let mut info = Info::default();
+        info.nt();
+        info.class(format!("{}:n={}", LONG_KINDS[kinds[i]], long_n(tier, kinds[i])));
+        rec(case, info);
+    }
+    Ok(())
+}
+
+fn replay_long(v: &serde_json::Value) -> Result<(), String> {
+    long_case(v["kind"].as_u64().unwrap_or(0) as usize % LONG_KINDS.len(), v["n"].as_u64().unwrap_or(2300) as usize, v["seed"].as_u64().unwrap_or(0))
+}
+
 pub fn def() -> PropDef {
     PropDef {
         id: "C20",
-        rule: "workloads of 2..13 operations drawn from the other properties' operation sets (Fq2 / Fq12 arithmetic, square roots, group operations incl. batch normalization, every scalar-multiplication path, wNAF contexts, sum_of_products, Miller loop + final exponentiation, hashing to both groups, (de)serialization, and occasional out-of-domain calls whose panic is caught), a generated assignment to 2..16 threads released by a barrier, per-thread prefixes of unrelated calls, 1..3 repetitions; all threads borrow one wNAF window table and one prepared (G1, G2) pair. Oracle: bit-identical results (raw X, Y, Z coordinates / field coefficients) between a sequential run, a second sequential run in reverse order with other prefixes, and every concurrent run; no panic; completion (watchdog). Bursts: 4..16 threads hammer 2..4 operations over a handful of shared points in tight loops. Non-trivial = at least two threads use the borrowed shared state (workloads) / at least two operations in the burst; distinct = distinct cases",
+        rule: "workloads of 2..13 operations drawn from the other properties' operation sets (Fq2 / Fq12 arithmetic, square roots, group operations incl. batch normalization, every scalar-multiplication path, wNAF contexts, sum_of_products, Miller loop + final exponentiation, hashing to both groups, (de)serialization, and occasional out-of-domain calls whose panic is caught), a generated assignment to 2..16 threads released by a barrier, per-thread prefixes of unrelated calls, 1..3 repetitions; all threads borrow one wNAF window table and one prepared (G1, G2) pair. Oracle: bit-identical results (raw X, Y, Z coordinates / field coefficients) between a sequential run, a second sequential run in reverse order with other prefixes, and every concurrent run; no panic; completion (watchdog). Long histories: thousands of distinct arguments through one operation on one thread, then re-evaluation. Bursts: 4..16 threads hammer 2..4 operations over a handful of shared points in tight loops. Non-trivial = at least two threads use the borrowed shared state (workloads) / at least two operations in the burst; distinct = distinct cases",
         needs_pairing: false,
         subs: vec![
             Box::new(Sub { name: "workloads", rule: "sequential == re-ordered sequential == concurrent, bit for bit", quick: 640, thorough: 6000, strategy: || boxed(workload_strategy()), check: check_workload }),
             Box::new(Sub { name: "fresh-process-orders", rule: "2..5 pool-free operations on generator-derived points (+-G multiplications through every path, decoding of +-G, serialization, group operations, pairing of +-generators, hashing, field operations) executed in two FRESH child processes in two different orders and in the long-lived checking process: every operation must return the same bits (exposes lazily initialised process-wide state that captures its first caller)", quick: 40, thorough: 1200, strategy: || boxed(proc_strategy()), check: check_proc }),
+            Box::new(crate::engine::EnumSub { name: "long-histories", rule: "one worker thread sends N distinct arguments (X_0 + i G) through one operation (pairing with distinct G2 / G1 arguments, checked decoding, subgroup test, hashing, wNAF multiplication, prepare + Miller loop), N = 2300 / 4400 (quick) and 9000 / 70000 (thorough), then evaluates the first 24, the last 24 and every (N/40)-th argument again, forwards and backwards: same bits as the first time (a bounded cache that misbehaves once full, flushed or wrapped)", run: run_long, replay: replay_long, exhaustive: false }),
             Box::new(Sub { name: "bursts", rule: "4..16 barrier-released threads each repeat a list of 2..4 operations (G1/G2 prepare of a few shared points, pairings, multiplications, hashing, field and group operations) 24..96 times from different starting offsets; every single result must be bit-identical to the sequential reference (exposes check-then-use races on process-wide state, which need call density)", quick: 48, thorough: 1500, strategy: || boxed(burst_strategy()), check: check_burst }),
         ],
         assumptions: {
